@@ -511,6 +511,18 @@ func profileFor(prop string) *Profile {
 		p.SameBlock = 0.7
 		p.PBoundary = 0.4
 		p.PSlash = 0.1
+	case "C20":
+		p.W["undelegate"], p.W["redelegate"] = 26, 22
+		p.SameBlock = 0.75
+		p.PSlash = 0.08
+		p.MaxBlocks = 40
+	case "C15":
+		p.W["redelegate"] = 40
+		p.W["delegate"] = 25
+		p.SameBlock = 0.75
+		p.PBoundary = 0.4
+		p.PGas = 0.12
+		p.PSlash = 0.03
 	case "C16":
 		p.GovWild = true
 		p.ParamsWild = true
